@@ -96,9 +96,8 @@ func (c *RecConn) stats() (int, int) {
 
 func (c *RecConn) Get(key string) ([]byte, error) {
 	x, bg, f, pos, g := c.attributeP()
-	if c.w.gate != nil {
-		c.w.gate.wait(g, "get")
-	}
+	c.w.gateWait(x)
+	_ = g
 	var v []byte
 	var err error
 	switch f {
@@ -153,9 +152,8 @@ func (c *RecConn) Get(key string) ([]byte, error) {
 
 func (c *RecConn) Set(key string, value []byte) error {
 	x, bg, f, g := c.attribute()
-	if c.w.gate != nil {
-		c.w.gate.wait(g, "set")
-	}
+	c.w.gateWait(x)
+	_ = g
 	var err error
 	switch f {
 	case "err", "seterr":
@@ -179,9 +177,8 @@ func (c *RecConn) Set(key string, value []byte) error {
 
 func (c *RecConn) Delete(key string) error {
 	x, bg, f, g := c.attribute()
-	if c.w.gate != nil {
-		c.w.gate.wait(g, "del")
-	}
+	c.w.gateWait(x)
+	_ = g
 	var err error
 	switch f {
 	case "err", "delerr":
